@@ -274,16 +274,25 @@ def x86_part(run, quick):
     n = 2500 if quick else 60000
     WIN = 160
     done = 0
-    for t in range(n):
-        jcc = rng.random() < 0.04
+
+    def cases():
+        for t in range(n):
+            if rng.random() < 0.04:
+                cc, code, disp = XG.jcc_case(rng)
+                yield XG.Case("J%d" % cc, code, 0, 64, jcc=(cc, disp))
+            else:
+                yield XG.gen_case(rng)
+        # SIB operands: every REX.X / REX.B / index field / scale / mod combination (see x86gen.sib_sweep)
+        for c in XG.sib_sweep(rng, 3 if quick else 24):
+            yield c
+
+    for case in cases():
+        if case is None:
+            continue
+        code = case.code
+        jcc = "jcc" in case.kw
         if jcc:
-            cc, code, disp = XG.jcc_case(rng)
-            case = XG.Case("J%d" % cc, code, 0, 64)
-        else:
-            case = XG.gen_case(rng)
-            if case is None:
-                continue
-            code = case.code
+            cc, disp = case.kw["jcc"]
         regs = []
         for k in range(16):
             regs.append(rng.choice([0, 1, 0xFF, 0x80, 0x7F, 0xFFFF, 0x8000, 0xFFFFFFFF, 0x80000000, 0x7FFFFFFF, (1 << 64) - 1, 1 << 63, (1 << 63) - 1,
@@ -294,7 +303,14 @@ def x86_part(run, quick):
         idx = getattr(case, "idx", None)
         if idx is not None:
             regs[idx] = rng.randrange(0, 3)
-        # a base register must stay a pointer even when it is also the index / count register
+        if case.setregs:
+            # SIB sweep: the address registers get the values that put the effective address inside the window
+            for k, v in case.setregs.items():
+                regs[k] = v
+            sib = case.kw["sib"]
+            run.hist("x86_sib_index", "none" if sib["index_reg"] is None else GPR[sib["index_reg"]])
+            run.hist("x86_sib_base", "none" if sib["base_reg"] is None else GPR[sib["base_reg"]])
+            run.hist("x86_sib_form", "mod%d scale%d%s" % (sib["mod"], 1 << sib["scale"], " a32" if case.kw["a67"] else ""))
         flags = rng.choice([0, 0x8D5, rng.getrandbits(12) & 0x8D5])
         memwin = rng.randbytes(WIN)
         ctypes.memmove(base - 8, memwin, WIN)
@@ -371,6 +387,9 @@ def check(run):
                        "a boundary set, memory around the accessed address; flag helpers: widths 1..128 with boundary operands; x86-64: ALU "
                        "(reg/mem/imm forms), INC/DEC/NEG/NOT/TEST, MOV/MOVZX/MOVSX/MOVSXD/LEA/XCHG/XADD, shifts and rotates (imm, 1, cl), IMUL, "
                        "CMOVcc/SETcc/Jcc, CBW.., flag instructions, operand sizes 8/16/32/64 with REX/66/67 prefixes, boundary register values; "
+                       "SIB operands swept over REX.X x REX.B x index field (incl. 100b: none / r12) x scale x mod 00/01/10 with random base field "
+                       "(incl. 101b: disp32 only / rbp / r13) and 67 prefix, for LEA / loads / stores / read-modify-write forms, index registers "
+                       "holding non-zero values and the base (or disp32) compensating so that the address falls in the compared window; "
                        "distinct by (encoding, state)")
     run.static_part()
     rows, meta = riscv_part(run, quick)
